@@ -261,7 +261,12 @@ def decide_build(pid, spec, b, tier, oc, seed):
             oc.undecided.append('%s: resource limit in %s::%s' % (bname, module, e['qual']))
             continue
         hint = k in ('assertion', 'recommends') and 'code' not in e['site_tags']
-        if kinds and k not in kinds and not hint:
+        extra_ok = False
+        for (ek, frx, crx) in spec.get('also', []):
+            if k == ek and re.search(frx, e['qual'] or '') and re.search(crx, e['clause_text'] or '') \
+                    and not re.search(r'forall|exists', e['clause_text'] or ''):
+                extra_ok = True
+        if kinds and k not in kinds and not hint and not extra_ok:
             # a failure kind that belongs to another property (e.g. arithmetic -> C14): not this property's business
             oc.notes.append('ignored for %s (kind %s): %s::%s' % (pid, k, module, e['qual']))
             continue
